@@ -33,7 +33,7 @@ import (
 
 var c08Densities = []int64{1, 3, 10, 50, 500}
 
-const c08StepBudget = 20_000_000 // logical step budget per execution (typical program: 10^3..10^5)
+const c08StepBudget = 5_000_000 // logical step budget per execution (typical program: 10^3..10^5)
 
 // c08Run is one planned execution.
 type c08Run struct {
@@ -373,7 +373,7 @@ func TestC08(t *testing.T) {
 			W = n
 		}
 	} else if vh.Tier() == "thorough" {
-		W = 8
+		W = thoroughWorkers(gmp)
 	}
 
 	if W > len(progs) {
@@ -385,10 +385,18 @@ func TestC08(t *testing.T) {
 		recs []c08Rec
 	}
 
+	// workers only need the Ego text
+	slim := make([]Prog, len(progs))
+	copy(slim, progs)
+
+	for i := range slim {
+		slim[i].Go = ""
+	}
+
 	shards := make([]*shard, W)
 	for w := range shards {
 		shards[w] = &shard{}
-		shards[w].job.Progs = progs
+		shards[w].job.Progs = slim
 	}
 
 	for _, ru := range runs {
